@@ -253,3 +253,252 @@ def unquote_coq_string(s):
     s = s.strip()
     assert s[0] == '"' and s[-1] == '"', s[:40]
     return s[1:-1].replace('""', '"')
+
+# ------------------------------------------------------------------ generators
+import sys as _sys
+_sys.path.insert(0, os.path.join(VERIF, "tools"))
+import translate_lef_keys as _tk
+ENUMS = dict(_tk.parse(open(_tk.SRC, encoding="utf8").read()))   # enum -> [(Variant, "STRING")]
+
+def H(s):
+    return s.encode("utf8").hex()
+
+ANTENNA_KEYS = ["ANTENNADIFFAREA", "ANTENNAGATEAREA", "ANTENNAPARTIALMETALAREA", "ANTENNAPARTIALMETALSIDEAREA",
+                "ANTENNAPARTIALCUTAREA", "ANTENNAPARTIALDIFFAREA", "ANTENNAMAXAREACAR", "ANTENNAMAXSIDEAREACAR", "ANTENNAMAXCUTCAR"]
+DBU = [100, 200, 400, 800, 1000, 2000, 4000, 8000, 10000, 20000]
+NAME_START = "abcxyzABCXYZmQ" + "éßΩж中"
+NAME_REST = "abcxyz019_[]<>/.-;#$%&*+=|~!?:,'\"(){}\\^`@" + "éΩ中😀́"
+NONALPHA_START = "_$[<(/*+!@%&=|~^{\\:,?'😀"
+
+_FLOAT = re.compile(r"^[+-]?(inf|infinity|nan|(\d+\.?\d*|\.\d+)([eE][+-]?\d+)?)$", re.I)
+def is_rust_float(s):
+    return bool(_FLOAT.match(s))
+
+def gen_name(rng, kind="plain"):
+    """kind: plain (alphabetic first character), numlike (starts with digit . - but is not a number), nonalpha"""
+    while True:
+        s = _gen_name(rng, kind)
+        if not is_rust_float(s):
+            return s
+
+def _gen_name(rng, kind):
+    r = rng.random()
+    n = rng.choice([1, 1, 2, 3, 5, 8, 13])
+    rest = "".join(rng.choice(NAME_REST if rng.random() < 0.35 else "abcdefgh0123456789_") for _ in range(n - 1))
+    if kind == "nonalpha":
+        return rng.choice(NONALPHA_START) + rest
+    if kind == "numlike" or (kind == "mixed" and r < 0.1):
+        return rng.choice(["18T", "1a", "-x", ".y", "-", "3.3v", "1e", "1.2.3", "--1", "0x10", "-inf_", "5_", "9é"]) + rest.replace('"', "q")
+    return rng.choice(NAME_START) + rest
+
+STR_BODY = ["", "x", "a b", "hello world", "é中 😀", "# not a comment ;", "a\tb", "MACRO END", "1.5", "line1\nline2", "[]", "a'b"]
+def gen_quoted(rng, spaces=True):
+    b = rng.choice(STR_BODY)
+    if not spaces:
+        b = "".join(c for c in b if not c.isspace())
+    return '"' + b + '"'
+
+def gen_dec(rng, fam=None):
+    fam = fam or rng.choice(["zero", "int", "int", "d1", "d2", "d3", "d6", "neg", "trail0", "big28", "frac28", "small"])
+    neg = False
+    if fam == "zero":
+        m, s = 0, rng.choice([0, 0, 1, 3])
+    elif fam == "int":
+        m, s = rng.choice([1, 2, 5, 10, 100, 999, 12345, 2 ** 31, 10 ** 9]), 0
+    elif fam in ("d1", "d2", "d3", "d6"):
+        s = int(fam[1:]); m = rng.randrange(1, 10 ** (s + rng.choice([0, 1, 3])))
+    elif fam == "neg":
+        s = rng.choice([0, 1, 3]); m = rng.randrange(1, 10 ** (s + 2)); neg = True
+    elif fam == "trail0":
+        s = rng.choice([2, 3, 6]); m = rng.randrange(1, 1000) * 10 ** rng.randrange(1, s + 1)
+    elif fam == "big28":
+        s = rng.choice([0, 5, 14]); m = rng.randrange(10 ** 27, 10 ** 28)
+    elif fam == "frac28":
+        s = 28; m = rng.randrange(1, 10 ** 28)
+    else:
+        s = rng.choice([4, 9, 20]); m = rng.randrange(1, 100)
+    if rng.random() < 0.15 and m != 0:
+        neg = True
+    return [neg, str(m), s]
+
+def gen_point(rng):
+    return {"x": gen_dec(rng), "y": gen_dec(rng)}
+
+def _len(rng, lo=0):
+    return max(lo, rng.choice([0, 0, 1, 1, 1, 2, 2, 3]))
+
+class LibGen:
+    """Random values of the SCHEMA types inside the supported subset (LefSpec.lib_supportedb)."""
+    def __init__(self, rng, old, name_kind="mixed"):
+        self.rng = rng; self.old = old; self.name_kind = name_kind
+    def name(self):
+        return H(gen_name(self.rng, self.name_kind))
+    def val(self, t, rec=None, field=None):
+        rng = self.rng
+        if t == B:
+            if (rec, field) in (("lef_pin", "net_expr"), ("lef_extension", "name")):
+                return H(gen_quoted(rng))
+            if (rec, field) == ("lef_antenna_attr", "key"):
+                k = rng.choice(ANTENNA_KEYS)
+                return H(rng.choice([k, k.lower(), k.capitalize(), "".join(c.lower() if rng.random() < 0.5 else c for c in k)]))
+            if (rec, field) == ("lef_property", "value"):
+                r = rng.random()
+                return H(gen_quoted(rng) if r < 0.4 else (rng.choice(["1", "1.50", "-0.5", "1e3", "007"]) if r < 0.7 else gen_name(rng, "plain")))
+            if (rec, field) == ("lef_extension", "data"):
+                toks = []
+                for _ in range(_len(rng)):
+                    r = rng.random()
+                    toks.append(";" if r < 0.15 else gen_quoted(rng, spaces=False) if r < 0.3 else rng.choice(["1.5", "-2", "MACRO", "end", "Layer"]) if r < 0.6 else gen_name(rng, "plain"))
+                toks = [x for x in toks if x.upper() != "ENDEXT"]
+                return H("".join(x + " " for x in toks))
+            return self.name()
+        if t == D:
+            return gen_dec(rng)
+        if t == BOOL:
+            return rng.random() < 0.5
+        if t == Z:
+            return rng.choice(DBU)
+        if t == CH:
+            return ord(rng.choice("[]<>(){}|/:.!é中"))
+        k = t[0]
+        if k == "opt":
+            if (rec, field) == ("lef_layer_geoms", "except_pg_net"):
+                return True if rng.random() < 0.4 else None
+            if (rec, field) in (("lef_macro", "source"), ("lef_lib", "names_case_sensitive"), ("lef_lib", "no_wire_extension_at_pin")) and not self.old:
+                return None
+            return self.val(t[1], rec, field) if rng.random() < 0.5 else None
+        if k == "list":
+            lo = 0
+            return [self.val(t[1], rec, field) for _ in range(_len(rng, lo))]
+        if k == "pair":
+            return [self.val(t[1], rec, field), self.val(t[2], rec, field)]
+        if k == "enum":
+            return rng.choice(ENUMS[t[1]])[0]
+        if k == "rec":
+            _, _, fields = SCH[t[1]]
+            v = {fn: self.val(ft, t[1], fn) for fn, ft in fields}
+            if t[1] == "lef_foreign" and v["pt"] is None:
+                v["orient"] = None
+            return v
+        if k == "var":
+            _, _, ctors = SCH[t[1]]
+            cn, ats = rng.choice(ctors)
+            args = [self.val(a, t[1], cn) for a in ats]
+            if t[1] in ("lef_shape", "lef_via_shape") and cn in ("Polygon", "Path"):
+                need = 3 if cn == "Polygon" else 2
+                while len(args[1]) < need:
+                    args[1].append(gen_point(rng))
+            if t[1] == "lef_propdef" and cn == "LefString" and args[2] is not None:
+                args[2] = H(gen_quoted(rng))
+            return {"v": cn, "a": args}
+        raise ValueError(t)
+
+def gen_version(rng, v):
+    """v in 53..58 or None"""
+    if v is None:
+        return None
+    return rng.choice([[False, str(v), 1], [False, str(v), 1], [False, str(v * 10), 2]])
+
+def gen_lib(rng, ver, name_kind="mixed"):
+    old = ver is not None and ver <= 54
+    g = LibGen(rng, old, name_kind)
+    lib = g.val(R("lef_lib"))
+    lib["version"] = gen_version(rng, ver)
+    return lib
+
+def minimal_lib(ver=None):
+    lib = {fn: ([] if ft[0] == "list" else False if ft == BOOL else None) for fn, ft in SCH["lef_lib"][2]}
+    lib["version"] = None if ver is None else [False, str(ver), 1]
+    return lib
+
+def walk(t, v, path, out):
+    """collect coverage facts: fields set / enum variants / list lengths"""
+    if v is None:
+        return
+    k = t[0] if isinstance(t, tuple) else t
+    if k == "opt":
+        out.add(path + "=Some"); walk(t[1], v, path, out)
+    elif k == "list":
+        out.add("%s#%d" % (path, min(len(v), 3)))
+        for x in v:
+            walk(t[1], x, path, out)
+    elif k == "pair":
+        walk(t[1], v[0], path, out); walk(t[2], v[1], path, out)
+    elif k == "enum":
+        out.add("%s:%s" % (t[1], v))
+    elif k == "rec":
+        for fn, ft in SCH[t[1]][2]:
+            walk(ft, v[fn], t[1] + "." + fn, out)
+    elif k == "var":
+        out.add("%s:%s" % (t[1], v["v"]))
+        for cn, ats in SCH[t[1]][2]:
+            if cn == v["v"]:
+                for a, x in zip(ats, v["a"]):
+                    walk(a, x, t[1] + "." + cn, out)
+    elif k == "bool":
+        out.add("%s=%s" % (path, v))
+
+def lib_coverage(lib):
+    out = set()
+    walk(R("lef_lib"), lib, "lef_lib", out)
+    return out
+
+# ---- styles
+WS = [32, 32, 32, 9, 10, 10, 13]
+COMMENTS = ["", " plain comment", "é中😀 non-ascii ́", " MACRO x ; END", "#\"quote", " \u0085  spaces"]
+def gen_sep_items(rng, first_ws=True, lo=1):
+    n = max(lo, rng.choice([1, 1, 1, 2, 3, 4]))
+    items = []
+    for i in range(n):
+        if (i == 0 and first_ws) or rng.random() < 0.7:
+            items.append("SWs %d" % rng.choice(WS))
+        else:
+            items.append("SComment %s" % cbytes(H(rng.choice(COMMENTS))))
+    return items
+
+def sep_list(items):
+    return "[" + "; ".join("(" + i + ")" if " " in i else i for i in items) + "]"
+
+def gen_style(rng, lib, plain=False):
+    """returns the Coq term of a style that is style_ok for lib"""
+    ver = lib["version"]
+    v10 = None if ver is None else int(ver[1]) * 10 // 10 ** ver[2]     # 5.x -> 5x
+    may_skip_end = ver is None or v10 >= 56
+    if plain:
+        return Raw("(mkstyle [] [[SWs 32]] [SWs 10] None [] [] [] false true)")
+    lead = gen_sep_items(rng, first_ws=False, lo=0) if rng.random() < 0.5 else []
+    seps = [gen_sep_items(rng) for _ in range(rng.choice([1, 3, 5, 7]))]
+    trail = gen_sep_items(rng) if rng.random() < 0.7 else []
+    tc = cbytes(H(rng.choice(COMMENTS))) if (trail and rng.random() < 0.3) else None
+    cases = rng.choice([[[]], [[True]], [[True, False]], [[False, True, True]], [[], [True], [False, True]],
+                        [[rng.random() < 0.5 for _ in range(rng.randrange(1, 6))] for _ in range(rng.randrange(1, 5))]])
+    nums = [(rng.choice([0, 0, 1, 2]), rng.random() < 0.4, rng.choice([0, 0, 1, 2, 3]), rng.random() < 0.3) for _ in range(rng.choice([1, 2, 3, 5]))]
+    keys = [rng.randrange(0, 6) for _ in range(rng.choice([1, 5, 7, 11, 13]))]
+    return Raw("(mkstyle %s [%s] %s %s [%s] [%s] [%s] %s %s)" % (
+        sep_list(lead), "; ".join(sep_list(s) for s in seps), sep_list(trail), "None" if tc is None else "(Some %s)" % tc,
+        "; ".join("[" + "; ".join("true" if b else "false" for b in m) + "]" for m in cases),
+        "; ".join("mknumsp %d %s %d %s" % (a, "true" if b else "false", c, "true" if d else "false") for a, b, c, d in nums),
+        "; ".join("%d%%nat" % k for k in keys),
+        "true" if rng.random() < 0.5 else "false",
+        "true" if (not may_skip_end or rng.random() < 0.5) else "false"))
+
+def render_cases(chk, pairs, tag):
+    """pairs: list of (style term, lib value) -> list of rendered texts (bytes), evaluated in Coq"""
+    items = ["(hex (render %s %s))" % (s, lib_to_coq(l)) for s, l in pairs]
+    outs = coq_eval_lists(LEF_HDR, items, chk.rundir, tag, shard=40)
+    return [bytes.fromhex(unquote_coq_string(o.replace("%string", ""))) for o in outs]
+
+# ---- hand-written corpus (valid texts; the first ones are the snippets of lef21/src/tests.rs)
+CORPUS_DIR = os.path.join(os.path.dirname(os.path.abspath(__file__)), "lef_corpus")
+def corpus():
+    out = []
+    for fn in sorted(os.listdir(CORPUS_DIR)):
+        if fn.endswith(".lef"):
+            out.append((fn, open(os.path.join(CORPUS_DIR, fn), "rb").read()))
+    return out
+
+def model_cfg():
+    """which code the model stands for: cfg_fixed (patched tree, default) or cfg_orig (unpatched tree)"""
+    c = os.environ.get("VERIF_LEF_CFG", "cfg_fixed")
+    assert c in ("cfg_fixed", "cfg_orig")
+    return c
